@@ -102,6 +102,17 @@ def check_datetime(ctx, t: int, bt):
                 ("microsecond only", lambda: DT(*want[:7], tzinfo=dt.timezone.utc)),
                 ("hightime", lambda: DT(ht.datetime(*want[:7], femtosecond=want[7], yoctosecond=want[8], tzinfo=dt.timezone.utc))),
                 ("datetime", lambda: DT(dt.datetime(*want[:7], tzinfo=dt.timezone.utc)))]
+    # sources that carry only microseconds (most of which are NOT a whole number of ticks: the DateTime is the nearest tick, and shows
+    # that tick's fields, not the source's), through every conversion entry point
+    from nitypes.waveform import Timing
+    us_only_ht = ht.datetime(*want[:7], tzinfo=dt.timezone.utc)
+    us_only_dt = dt.datetime(*want[:7], tzinfo=dt.timezone.utc)
+    if t % 4 == 0:
+      builders += [("convert_datetime(hightime, microseconds only)", lambda: convert_datetime(DT, us_only_ht)),
+                 ("convert_datetime(datetime, microseconds only)", lambda: convert_datetime(DT, us_only_dt)),
+                 ("Timing.to_bintime(hightime timestamp)", lambda: Timing.create_with_no_interval(us_only_ht).to_bintime().timestamp),
+                 ("Timing.to_bintime(datetime timestamps)", lambda: Timing.create_with_irregular_interval([us_only_dt]).to_bintime().get_timestamps(0, 1)[0]),
+                 ("DateTime(hightime, microseconds only)", lambda: DT(us_only_ht))]
     for label, mk in builders:
         o2 = outcome(mk)
         if o2[0] != "ok":
